@@ -300,7 +300,7 @@ func Worker(p *Prop, tier string, seed int64, shard, nshards int, skip map[int]b
 				cur := atomic.LoadInt64(&progress)
 				if cur != last {
 					last, since = cur, time.Now()
-				} else if cur > 0 && time.Since(since) > time.Duration(p.StallSeconds)*time.Second {
+				} else if time.Since(since) > time.Duration(p.StallSeconds)*time.Second {
 					fmt.Fprintf(os.Stderr, "fatal error: STALL: the current call has not returned for %d seconds\n", p.StallSeconds)
 					os.Exit(97)
 				}
